@@ -123,7 +123,7 @@ func genC15(r *sim.Rng, tier string, idx int) *GCase {
 		if !v.Decompress {
 			f = genPlainFile(r, name, 3000)
 			if r.Chance(1, 12) {
-				f.Name = name + sim.Pick(r, []string{".xz", ".lzma", ".txz", ".tlz"})
+				f.Name = name + sim.Pick(r, []string{".xz", ".lzma", ".txz", ".tlz", ".XZ", ".Tlz"})
 			}
 			if r.Chance(1, 15) {
 				f.Mode |= uint32(sim.Pick(r, []os.FileMode{os.ModeSetuid, os.ModeSetgid, os.ModeSticky}))
@@ -135,12 +135,14 @@ func genC15(r *sim.Rng, tier string, idx int) *GCase {
 				ff = sim.Pick(r, []string{"xz", "lzma"})
 			}
 			ext := sim.Pick(r, map[string][]string{"xz": {".xz", ".xz", ".txz"}, "lzma": {".lzma", ".lzma", ".tlz"}}[ff])
+			if r.Chance(1, 15) {
+				ext = sim.Pick(r, []string{".XZ", ".Xz", ".LZMA", ".TLZ"}) // not a known suffix: the letter case matters
+			}
 			f = FileSpec{Name: name + ext, Mode: sim.Pick(r, []uint32{0o644, 0o600, 0o444, 0o755, 0o640}), Kind: "stream", Stream: genForeignStream(r, ff)}
 			switch r.Weighted([]int{12, 1, 1, 1}) {
 			case 1:
 				f.Kind = "cut"
-				n := len(f.Stream.Build().Stream)
-				f.Cut = r.Range(0, n-1)
+				f.Cut = cutFor(r, f.Stream)
 			case 2:
 				pl := sim.GenPayload(r, 300)
 				f.Kind, f.Payload, f.Stream = "garbage", &pl, nil
@@ -199,7 +201,11 @@ func genC15(r *sim.Rng, tier string, idx int) *GCase {
 			e := modelOperand(&v, stateOf(buildWorld(c)), f.Name)
 			if e.Target != "" && !used[e.Target] {
 				used[e.Target] = true
-				c.Files = append(c.Files, genPlainFile(r, e.Target, 100))
+				if r.Chance(1, 5) {
+					c.Files = append(c.Files, FileSpec{Name: e.Target, Kind: "dir"})
+				} else {
+					c.Files = append(c.Files, genPlainFile(r, e.Target, 100))
+				}
 			}
 		}
 	}
